@@ -14,3 +14,6 @@
 ;; type []string
 (declare-fun strJoin (Seq_String String) String)
 (assert (forall ((sep String)) (! (= (strJoin empty_String sep) "") :pattern ((strJoin empty_String sep)))))
+; a JSON string literal is its content between two double quotes
+(declare-fun jsonInner (String) String)
+(assert (forall ((s String)) (! (= (jsonQuote s) (str.++ """" (jsonInner s) """")) :pattern ((jsonQuote s)))))
